@@ -5,6 +5,7 @@ import (
 	"reflect"
 	"sort"
 	"strings"
+	"time"
 
 	"github.com/wkhere/bcl"
 
@@ -32,9 +33,19 @@ var c15Values = []struct {
 	{"blk{p=1}", bcl.Block{Type: "in", Name: "p", Fields: map[string]any{"x": 1}}},
 	{"blk{nilfields}", bcl.Block{Type: "in"}},
 	{"blk{deep}", bcl.Block{Type: "in", Fields: map[string]any{"in": bcl.Block{Type: "in", Fields: map[string]any{"x": 2}}}}},
+	// values a program cannot produce but a hand-built binding can hold: structs that are not Blocks, pointers, slices, maps
+	{"struct{}{}", struct{}{}}, {"time.Time", time.Time{}}, {"Emb{1}", Emb{X: 1}}, {"myBlock", myBlock{Type: "in"}},
+	{"*Block", c15BlockPtr}, {"[]int", []int{1}}, {"map", map[string]int{"a": 1}},
 }
 
-var c15Keys = []string{"x", "X", "y", "foo_bar", "in", "in.p", "emb", "z"}
+type myBlock bcl.Block
+
+var c15BlockPtr = &bcl.Block{Type: "in", Fields: map[string]any{"x": 1}}
+
+// a Binding implemented by embedding the interface
+type wrapBinding struct{ bcl.Binding }
+
+var c15Keys = []string{"x", "X", "y", "foo_bar", "in", "in.p", "emb", "z", "Name", "name"}
 
 func c15Bindings(quick bool) []namedBinding {
 	var out []namedBinding
@@ -81,6 +92,17 @@ func c15Bindings(quick bool) []namedBinding {
 	}
 	// slice bindings: 0..2 blocks
 	out = append(out, namedBinding{"slice:[]", func() bcl.Binding { return bcl.SliceBinding{} }})
+	// bindings of other dynamic types: pointers (nil and not) to the two binding types, wrappers embedding the interface
+	blkX := func() bcl.Block { return bcl.Block{Type: "t", Fields: map[string]any{"x": 1}} }
+	out = append(out,
+		namedBinding{"ptr:nil-*StructBinding", func() bcl.Binding { return (*bcl.StructBinding)(nil) }},
+		namedBinding{"ptr:nil-*SliceBinding", func() bcl.Binding { return (*bcl.SliceBinding)(nil) }},
+		namedBinding{"ptr:*StructBinding{x=1}", func() bcl.Binding { return &bcl.StructBinding{Value: blkX()} }},
+		namedBinding{"ptr:*SliceBinding[{x=1}]", func() bcl.Binding { return &bcl.SliceBinding{Value: []bcl.Block{blkX()}} }},
+		namedBinding{"wrap:nil", func() bcl.Binding { return wrapBinding{} }},
+		namedBinding{"wrap:struct{x=1}", func() bcl.Binding { return wrapBinding{bcl.StructBinding{Value: blkX()}} }},
+		namedBinding{"wrap:slice[{x=1}]", func() bcl.Binding { return &wrapBinding{bcl.SliceBinding{Value: []bcl.Block{blkX()}}} }},
+	)
 	for i, b := range blocks {
 		b := b
 		if i%7 != 0 && quick {
@@ -303,7 +325,9 @@ func notStored(v reflect.Value, b bcl.Block) string {
 		if !reflect.TypeOf(val).AssignableTo(fv.Type()) {
 			return fmt.Sprintf("key %q: value of type %T is not assignable to field %s of type %s (no coercion)", key, val, f.Name, fv.Type())
 		}
-		if !reflect.DeepEqual(fv.Interface(), val) {
+		// an assignable value of another (unnamed/named) type with the same underlying type is stored as the field's type
+		stored := reflect.ValueOf(val).Convert(fv.Type()).Interface()
+		if !reflect.DeepEqual(fv.Interface(), stored) {
 			return fmt.Sprintf("key %q: field %s holds %#v, block has %#v", key, f.Name, fv.Interface(), val)
 		}
 		return ""
@@ -405,7 +429,34 @@ func c15Exec(cs fw.Case, orderMatters bool) *fw.Fail {
 			if !tv.IsValid() || tv.Kind() != reflect.Pointer || tv.IsNil() {
 				return "bad-target", fmt.Sprintf("Bind returned nil for target %s", nt.name)
 			}
-			switch b := binding.(type) {
+			eff := binding
+			for {
+				switch w := eff.(type) {
+				case *bcl.StructBinding:
+					if w == nil {
+						return "nil-binding", "Bind returned nil for a nil *StructBinding"
+					}
+					eff = *w
+					continue
+				case *bcl.SliceBinding:
+					if w == nil {
+						return "nil-binding", "Bind returned nil for a nil *SliceBinding"
+					}
+					eff = *w
+					continue
+				case wrapBinding:
+					eff = w.Binding
+					continue
+				case *wrapBinding:
+					eff = w.Binding
+					continue
+				}
+				break
+			}
+			if eff == nil {
+				return "nil-binding", "Bind returned nil for a binding that holds no blocks"
+			}
+			switch b := eff.(type) {
 			case bcl.StructBinding:
 				if msg := notStored(tv.Elem(), b.Value); msg != "" {
 					return "dropped", "Bind returned nil although " + msg
@@ -517,7 +568,7 @@ func init() {
 	fw.Register(&fw.Check{
 		ID:    "C15",
 		Level: "model_checking",
-		Rule: "bindings built directly as Go values (nil, struct binding, slice bindings of 0-2 blocks; blocks with <=2 fields over 8 keys {x X y foo_bar in in.p emb z} and 10 values {int, float, string, bool, nil, int32, nested blocks named/unnamed/deep, a block with a nil Fields map}) crossed with ~1000 targets (nil, non-pointers, nil pointers, pointer to pointer, pointers to every Go kind, slices of non-structs and of pointers, hand-declared structs with embedded / embedded-pointer / unexported / tagged / colliding fields, generated structs with 1-2 fields over 20 field kinds). " +
+		Rule: "bindings built directly as Go values (nil, struct binding, slice bindings of 0-2 blocks; blocks with <=2 fields over 10 keys {x X y foo_bar in in.p emb z Name name} and 17 values {int, float, string, bool, nil, int32, nested blocks named/unnamed/deep, a block with a nil Fields map, struct values that are not Blocks (struct{}, time.Time, a user struct, a type derived from Block), *Block, a slice, a map}; pointers (nil and not) to the binding types and wrappers embedding the Binding interface) crossed with ~1000 targets (nil, non-pointers, nil pointers, pointer to pointer, pointers to every Go kind, slices of non-structs and of pointers, hand-declared structs with embedded / embedded-pointer / unexported / tagged / colliding fields, generated structs with 1-2 fields over 20 field kinds). " +
 			"For each pair EVERY map iteration order of every range-over-map inside Bind is explored through the map-order choice point of the rewritten package. Oracle on every order: never panics; nil only if an independent matcher finds every key (and the name) stored unchanged in a distinct exported assignable field; on error a slice target is unchanged; fully storable plain cases must succeed. Plus every history of 2 (thorough 3) Bind calls over three distinct struct types that print the same name but differ in layout and tags (state carried between calls).",
 		Subs:           []*fw.Sub{subC15, subC15Hist},
 		BudgetQuick:    100,
